@@ -1482,3 +1482,40 @@ Proof.
     + exfalso. assert (n0 = [INBOX]) by (apply flat_inj; auto using comp_ok_INBOX). subst n0. discriminate Hi.
     + assert (n = n0) by (apply flat_inj; auto). subst n. exact Hin.
 Qed.
+
+(* ================================================================== the statements over all histories *)
+Theorem list_exact_reachable : forall os lsub ref pat, ~ (ref = [] /\ pat = []) ->
+  let st := fst (run init os) in
+  let out := list_cmd st (plain lsub ref pat) in
+  NoDup (map e_name out) /\
+  (forall d, In d (map e_name out) <-> spec_listed (abs st) lsub [ref ++ pat] d).
+Proof. intros os lsub ref pat H. exact (list_exact _ lsub ref pat (reachable_inv os) H). Qed.
+
+Theorem list_attrs_reachable : forall os q e, ~ is_probe q ->
+  let st := fst (run init os) in
+  In e (list_cmd st q) ->
+  exists n i, abs st n = Some i /\ e_name e = shown n /\
+    (In HasChildren (e_attrs e) <-> has_inferiors (abs st) n) /\
+    (In HasNoChildren (e_attrs e) <-> ~ has_inferiors (abs st) n) /\
+    (In Noselect (e_attrs e) <-> i_placeholder i = true) /\
+    (In Subscribed (e_attrs e) -> i_subscribed i = true).
+Proof. intros os q e H st. exact (list_attrs st q e (reachable_inv os) H). Qed.
+
+Theorem rename_subtree_reachable : forall os o n st',
+  let st := fst (run init os) in
+  is_inbox o = false -> rename st o n = (st', OK) ->
+  (forall s, abs st' (n ++ s) = abs st (o ++ s)) /\ (forall s, abs st' (o ++ s) = None).
+Proof. intros os o n st' st. exact (rename_subtree st o n st' (reachable_inv os)). Qed.
+
+Theorem inbox_undeletable :
+  (forall st n, is_inbox n = true -> delete st n = (st, NO)) /\
+  (forall os, exists r, find_row (fst (run init os)) inbox = Some r /\ r_nosel r = false).
+Proof. exact (conj inbox_never_deleted inbox_always_there). Qed.
+
+Theorem deleted_leaf_gone_reachable : forall os n0 st',
+  let st := fst (run init os) in
+  delete st n0 = (st', OK) -> has_kids st (canon n0) = false ->
+  (forall r, find_row st (canon n0) = Some r -> r_sub r = false) ->
+  abs st' (canon n0) = None /\ select st' n0 = (st', NO) /\
+  (forall q e, ~ is_probe q -> In e (list_cmd st' q) -> e_name e <> shown (canon n0)).
+Proof. intros os n0 st' st. exact (deleted_leaf_gone st n0 st' (reachable_inv os)). Qed.
